@@ -41,6 +41,15 @@ Theorem C03_insert_spec : forall it s nf elems m,
 Proof. exact insert_file_spec. Qed.
 Print Assumptions C03_insert_spec.
 
+(* the shape hypothesis holds of every tree the command line can reach: parsed by NewBIOSRegion,
+   then edited by any sequence of operations (files to insert parsed by NewFile) *)
+Theorem C03_tree_shape : forall dec u2s nvar d ops img cops pol0 elems pol elems',
+  parse_cli dec u2s nvar d 240 ops = Ok (cops, pol0) ->
+  parse_bios dec u2s nvar d (Z.to_nat (zlen img) + 1) pol0 img 0 = Ok (elems, pol) ->
+  run_ops d pol cops elems = Ok elems' -> forallb (shp 0) elems' = true.
+Proof. exact edit_tree_shape. Qed.
+Print Assumptions C03_tree_shape.
+
 (* one match, a volume (selected by its name): front and end only *)
 Theorem C03_insert_volume_spec : forall it s nf elems m,
   find_elems s elems = [m] -> is_voln m = true ->
